@@ -2,11 +2,12 @@ SPECIFICATION Spec
 CONSTANTS
   Sizes <- MC_SmallSizes
   Lays <- MC_SmallLays
-  Modes = {"r", "w", "a", "r+", "w+", "a+"}
+  Modes = {"r", "w", "a", "r+", "w+", "a+", "tmp"}
   RCounts = {0, 1, 2, 7}
   WCounts = {0, 2, 6}
   SOffs <- MC_SmallSOffs
   VBufs = {"no", "full"}
+  VSizes = {0}
   Extra <- MC_AllExtra
   Naive = TRUE
   Gen = FALSE
